@@ -11,7 +11,7 @@ from vt.mon import contracts, hooks
 PROP = 'C20'
 TITLE = 'DFA isomorphism test'
 SHARDS = {'quick': 8, 'thorough': 32}
-TIMEOUT = {'quick': 600, 'thorough': 3000}
+TIMEOUT = {'quick': 420, 'thorough': 3000}
 REQUIRED = ['dfa_isomorphic1', 'dfa_isomorphic']
 EXHAUSTIVE_NOTE = 'all ordered pairs (incl. self pairs) of total DFAs with <=2 states over a common alphabet of <=2 symbols'
 RULE = ('cases are ordered pairs of DFAs over one alphabet: complete enumeration <=2 states/<=2 symbols; random pairs <=6 states of five kinds '
